@@ -4,7 +4,7 @@
     ([real_keys P]: regenerated from host/keys.go).  A history is a list of operations [(env, action)] folded by
     [run] from ANY state; [step] models one delivered message (error / panic => state unchanged). *)
 From Teleport Require Import Base.Bytes Base.Outcome Base.AList Model.Packet Model.PacketKeys
-     Proofs.Packet Proofs.PacketC01 Proofs.PacketKeys Proofs.PacketExamples.
+     Proofs.Packet Proofs.PacketC01 Proofs.PacketC02 Proofs.PacketC05 Proofs.PacketC04 Proofs.PacketTx Proofs.PacketKeys Proofs.PacketExamples.
 Local Open Scope N_scope.
 
 (** No operation of any history removes or rewrites a packet receipt. *)
@@ -43,6 +43,28 @@ Print Assumptions C01_log_ok_empty.
 Theorem C01_real_keys_ok : forall P, real_keys P -> keys_ok P.
 Proof. exact real_keys_ok. Qed.
 Print Assumptions C01_real_keys_ok.
+
+(** Cosmos transactions carrying SEVERAL messages (BaseApp.runTx is atomic over all of them: [step_tx] accepts a
+    transaction iff every message is accepted, and a rejected transaction leaves the state equal).  Every state
+    reachable by a history of transactions is the state reached by the messages of the accepted transactions alone,
+    so every theorem stated over [run] covers histories of multi-message transactions. *)
+Theorem C01_run_txs_as_run : forall P l s,
+  run_txs P s l = run P s (accepted P s l) /\
+  (forall o, In o (accepted P s l) -> exists t, In t l /\ In o t).
+Proof. exact run_txs_as_run. Qed.
+Print Assumptions C01_run_txs_as_run.
+
+(** Same block, same transaction: once a transaction containing an accepted receive of triple t is accepted, every
+    later transaction — after any history [l] of transactions — that carries a receive decoding to t is rejected AS A
+    WHOLE and leaves the state equal; the messages before (t3) and behind (t4) it in that transaction have
+    no effect either. *)
+Theorem C01_recv_twice_tx_rejected : forall P, real_keys P ->
+  forall env s m cb t1 t2 env' m' cb' t3 t4 l s1,
+  exec_tx P s (t1 ++ (env, ARecv m cb) :: t2) = Some s1 ->
+  triple_of (fst (decode P (rm_packet m'))) = triple_of (fst (decode P (rm_packet m))) ->
+  step_tx P (run_txs P s1 l) (t3 ++ (env', ARecv m' cb') :: t4) = (run_txs P s1 l, false).
+Proof. intros P K. exact (recv_twice_tx_rejected P (real_keys_ok P K)). Qed.
+Print Assumptions C01_recv_twice_tx_rejected.
 
 (** Non-vacuity: on a concrete chain B (client for chain A, one relayer) a packet (A, B, 3) is accepted; after a
     history that receives two other packets, a re-encoded duplicate (other payload, other proof, other height) is
